@@ -620,6 +620,10 @@ pub fn emit_shard(recvs: &[Recv], ids: &[usize]) -> String {
         emit_recv(recvs, &recvs[*id], &mut out);
         // FlattenMark for struct receivers that can be flatten members: mark the anchor (or nothing)
         let r = &recvs[*id];
+        if let (Trait::Meta, Shape::Newtype(Ty::Recv(_)), true) = (r.tr, &r.shape, r.generics.is_empty()) {
+            // a newtype around a struct receiver passes the mark on
+            out.push_str(&format!("impl FlattenMark for {0} {{ fn mark(self) -> Self {{ {0}(self.0.mark()) }} fn rejects(&self) -> bool {{ self.0.rejects() }} }}\n", r.name()));
+        }
         if r.tr == Trait::Meta && matches!(r.shape, Shape::Struct(_)) && r.generics.is_empty() {
             let stmt = match anchor_field(r) {
                 Some(a) => match r.fields()[a].ty {
